@@ -1,5 +1,30 @@
 import broker_common as bc
-MANIFEST = {'text': 'accounting invariant of the broker model preserved by every operation (work in progress: further theorems are added below)',
-            'note': 'in progress', 'technique': 'Coq proof over a hand-written model + differential correspondence check against the real code'}
+MANIFEST = {
+    'text': ('Coq theorems over Model/Broker.v (step / run, every operation of the broker): '
+             'C12_accounting / _explicit / _closed / C12_complement: from an empty store, after ANY operation history (restored snapshots must '
+             'satisfy the invariant, or be reachable themselves in the _closed variant) every chunk proxy of every cluster is registered and tagged '
+             'with that cluster and the chunk records its host and node addresses, every tagged proxy occurs in its cluster\'s chunks, the list of '
+             'all chunk positions has no duplicate, tagged/untagged is the exact complement of membership, and the model of check_metadata returns true; '
+             'C12_refusal_atomic: OAddCluster/OAutoAddNodes/OAutoScaleUp that do not answer ok leave the store unchanged; '
+             'C12_two_hosts (+ _autochange): in host-aware mode every chunk appended by a successful creation/scale-out has ck_host0 <> ck_host1, for '
+             'every oracle choice list the model accepts; '
+             'C12_no_panic / C12_allocator_no_panic / C12_alloc_progress / C12_link_entry: no expect() of generate_free_chunks/allocate_chunk can fire '
+             '(progress invariant 2*max <= sum+1 /\\ 2*pairs_left <= sum on the trimmed per-host counts; link table covers every pair of hosts with a '
+             'free proxy), for any store and any request; C12_replace_no_panic: replace_failed_proxy never panics under the invariant; '
+             'C12_replacement_host: a successful replacement is a free healthy proxy and is NOT on the surviving partner\'s host whenever some other '
+             'host has a free healthy proxy. '
+             'Correspondence: seeded random operation histories (plus a hand-written corpus) run on the real MetaStore and on the extracted model; '
+             'after every operation the canonical store text and all cluster/proxy views are compared, and the monitors of harness/broker/src/mon.rs '
+             '(labels C12, C12repl: real check_metadata, accounting predicate, two-host and replacement-host predicates, catch_unwind) run on the real state.'),
+    'note': ('Trusted base: Coq kernel; the hand-written model Model/Broker.v and its correspondence to src/broker/{store,update,migrate,query}.rs '
+             '(differential, not proved); hash-order dependent allocator choices are an oracle read from the implementation and validated by the '
+             'model (alloc_one, generate_new_free_proxy) - the theorems quantify over every choice the model accepts. '
+             'Scope: C12_two_hosts and C12_replacement_host are for st_ordered = false (ordered-proxy mode pairs consecutive indices by design and '
+             'never replaces). C12_refusal_atomic covers the three allocation operations only: migrate_slots / scale-down bump the global epoch before '
+             'failing and OAutoChange releases free chunks before its scale-up can be refused (both as in the code). C12_no_panic covers the '
+             'allocator and replace_failed_proxy; panics of the migration planners (remove_slots_from_src*, assign_dst_slots) and of the views belong '
+             'to C10/C01. ORestore: the snapshot must satisfy the invariant (restore copies it verbatim, as the code does). '
+             'All theorems: Print Assumptions = Closed under the global context.'),
+    'technique': 'Coq proof over a hand-written model + differential correspondence check against the real code'}
 def run(chk): bc.standard_run(chk, 'C12')
 def replay(data): return bc.replay('C12', data)
